@@ -225,6 +225,16 @@ func genH2Unfit(t *rapid.T) *garbage {
 	if rapid.Bool().Draw(t, "withBody") {
 		method, body = "POST", codec.Fill(rapid.SampledFrom([]int{1, 300}).Draw(t, "bodyLen"), 2, true)
 	}
+	if rapid.IntRange(0, 3).Draw(t, "unfitMethod") == 0 {
+		// a request line the HTTP/1 side takes (fasthttp does not look into the method) but whose method is no token:
+		// as :method it makes an HTTP/2 peer refuse the stream without opening it, and the DATA frames of the body
+		// that follow are then a connection error over there
+		method = rapid.SampledFrom([]string{"PK\x13T", "PO\x7fST", "G\x01T", "PU(T)", "PA{TCH"}).Draw(t, "badMethod")
+		g.Kind = "h2-unfit-request:method"
+		if body == nil {
+			body = codec.Fill(200, 2, true)
+		}
+	}
 	g.Bytes = mesh.RawRequest(method, path, "unfit.example", hdr, body, false)
 	return g
 }
@@ -505,7 +515,7 @@ func (p *prober) exchange(tag string) string {
 			return "no response: " + err.Error()
 		}
 		if r.Status != 200 || string(r.Body) != "hello "+token {
-			return fmt.Sprintf("status %d body %q, want 200 %q", r.Status, e2eHead(r.Body), "hello "+token)
+			return fmt.Sprintf("status %d body %q (token header %q, all headers %v), want 200 %q", r.Status, e2eHead(r.Body), r.Header.Get(mesh.TokenHeader), r.Header, "hello "+token)
 		}
 		return ""
 	default:
@@ -538,6 +548,7 @@ type echoServer struct {
 	close func()
 	mu    sync.Mutex
 	notes []string
+	more  func() []string // further observations of the upstream (HTTP/2: connection errors it raised against the proxy)
 }
 
 func (e *echoServer) note(format string, a ...interface{}) {
@@ -551,7 +562,13 @@ func (e *echoServer) note(format string, a ...interface{}) {
 func (e *echoServer) Notes() string {
 	e.mu.Lock()
 	defer e.mu.Unlock()
-	return strings.Join(e.notes, "; ")
+	n := e.notes
+	if e.more != nil {
+		for _, x := range e.more() {
+			n = append(append([]string(nil), n...), "upstream raised a connection error: "+x)
+		}
+	}
+	return strings.Join(n, "; ")
 }
 
 func (e *echoServer) Close() { e.close() }
@@ -562,9 +579,16 @@ func echoUpstream(proto string) *echoServer {
 	switch up {
 	case "Http1", "Http2":
 		u := mesh.NewUpstream(up, func(r *mesh.Req) mesh.Action {
-			return mesh.Action{Kind: "reply", Status: 200, Header: [][2]string{{mesh.TokenHeader, r.Token}}, Body: []byte("hello " + r.Token)}
+			a := mesh.Action{Kind: "reply", Status: 200, Header: [][2]string{{mesh.TokenHeader, r.Token}}, Body: []byte("hello " + r.Token)}
+			if strings.HasPrefix(r.Token, "probe-slow") {
+				// a probe whose answer takes a moment: it is in flight on the (shared) upstream connection while the
+				// garbage clients' requests pass through the proxy
+				a.Delay = 60 * time.Millisecond
+			}
+			return a
 		})
 		e.Addr, e.close = u.Addr, func() { mesh.KillAndClose(u) }
+		e.more = u.GoAways
 		return e
 	}
 	srv := mesh.NewRawServer(func(id int, c net.Conn) {
@@ -852,7 +876,11 @@ func containmentCase(rt *rapid.T, sc *scenario) {
 		if atomic.LoadInt32(&running) > 0 {
 			overlapped++
 		}
-		if e := pA.exchange("a"); e != "" {
+		tag := "a"
+		if i < 2 && (sc.Proto == "Http1" || sc.Proto == "H1toH2" || sc.Proto == "Http2" || sc.Proto == "Auto") {
+			tag = "slow-a" // token probe-slow-a-N: the HTTP upstream holds the answer for 60 ms
+		}
+		if e := pA.exchange(tag); e != "" {
 			probeErr, probeWhere = e, "another connection of the hammered listener"
 			break
 		}
@@ -871,6 +899,10 @@ func containmentCase(rt *rapid.T, sc *scenario) {
 			// a garbage frame was accepted by the listener's decoder and written verbatim onto the multiplexed
 			// upstream connection; the upstream dropped that connection and with it the probe's request
 			sig = "probe-disturbed:undecodable-garbage-forwarded-onto-shared-upstream-connection"
+		} else if strings.Contains(upA.Notes(), "upstream raised a connection error") {
+			// what the proxy wrote onto the multiplexed upstream connection on behalf of a garbage client made the
+			// reference upstream (x/net) raise a CONNECTION error: every other client's request on it went down with it
+			sig = "probe-disturbed:reference-upstream-raised-a-connection-error-on-the-shared-connection"
 		}
 		fail(sig, "probe on %s: %s [upstream notes: %s | %s]", probeWhere, probeErr, upA.Notes(), upC.Notes())
 	}
